@@ -129,6 +129,45 @@ impl Runner for PacketRunner {
                         // implementation-side monitor: the datagram is iv ‖ (header ⊕ keystream) ‖ message,
                         // with the keystream computed independently (AES-128-CTR, key = destination id
                         // prefix, counter block = iv) and the header as returned in the authenticated data
+                        // the header itself, spelled out from the op's fields as the wire format has it:
+                        // protocol id ‖ version ‖ flag ‖ nonce ‖ authdata-size ‖ authdata, everything
+                        // big-endian (authdata: src-id | id-nonce ‖ enr-seq(8) | src-id ‖ sig-size ‖
+                        // key-size ‖ sig ‖ key ‖ record)
+                        if let (Some(pidb), Some(verb), Some(nb)) = (unhx(pid), unhx(ver), unhx(nonce)) {
+                            let f: Vec<&str> = kind.split(':').collect();
+                            let auth: Option<(u8, Vec<u8>)> = match f.as_slice() {
+                                ["m", src] => unhx(src).map(|s| (0u8, s)),
+                                ["w", idn, seq] => match (unhx(idn), seq.parse::<u64>()) {
+                                    (Some(mut a), Ok(q)) => { a.extend_from_slice(&q.to_be_bytes()); Some((1u8, a)) }
+                                    _ => None,
+                                },
+                                ["h", src, sig, eph, rec] => match (unhx(src), unhx(sig), unhx(eph)) {
+                                    (Some(mut a), Some(sg), Some(ep)) if sg.len() < 256 && ep.len() < 256 => {
+                                        a.push(sg.len() as u8);
+                                        a.push(ep.len() as u8);
+                                        a.extend_from_slice(&sg);
+                                        a.extend_from_slice(&ep);
+                                        if *rec != "none" { if let Some(r) = unhx(rec) { a.extend_from_slice(&r); } else { a.clear(); } }
+                                        if a.is_empty() { None } else { Some((2u8, a)) }
+                                    }
+                                    _ => None,
+                                },
+                                _ => None,
+                            };
+                            // (records are re-encoded by the crate: only compared when the op carries none)
+                            let comparable = !(f[0] == "h" && f.get(4) != Some(&"none"));
+                            if let (Some((flag, a)), true) = (auth, comparable) {
+                                let mut h = pidb.clone();
+                                h.extend_from_slice(&verb);
+                                h.push(flag);
+                                h.extend_from_slice(&nb);
+                                h.extend_from_slice(&(a.len() as u16).to_be_bytes());
+                                h.extend_from_slice(&a);
+                                if ad.len() < 16 || ad[16..] != h[..] {
+                                    out.push("!MON C05 header-differs-from-wire-layout".into());
+                                }
+                            }
+                        }
                         if let (Some(ks), Some(ivb), Some(m)) = (unhx(ks_tok), unhx(iv), unhx(msg)) {
                             let header = if ad.len() >= 16 { &ad[16..] } else { &ad[..0] };
                             let mut want = ivb.clone();
